@@ -192,6 +192,7 @@ def Op.targets (c : Cfg) (s : St) : Op → List GName
   | .clear _ t | .drop _ t => clearTargets c s t
   | .add _ _ b | .copy _ _ b => [b]
   | .move _ a b => [a, b]
+  | .fail _ => []
 
 /-- untouched graphs stay untouched -/
 def Statement_untouched_graphs_unchanged : Prop :=
@@ -559,6 +560,7 @@ theorem untouched_graphs_unchanged : Statement_untouched_graphs_unchanged := by
   · simp only [Option.some.injEq] at h
     subst h
     cases op with
+    | fail sl => exact Iff.rfl
     | insertData q =>
       simp only [Op.targets] at hx
       simp only [evalInsertData]
@@ -1249,5 +1251,100 @@ theorem alg_solutions_below : Statement_alg_solutions_below :=
 
 example : optModify.algSpelled := by
   simp [Modify.algSpelled, optModify, optPattern, AlgSpelled, ExprSpelled, TPSpelled, PosSpelled, CSpelled]
+
+/-! ### outcomes: which operations fail, what a failure leaves behind; CREATE and LOAD -/
+
+/-- Which operations fail.  On a dataset NO operation of the property's list ever fails — missing graphs included:
+    `get_context` always yields a graph, so CLEAR / DROP / ADD / MOVE / COPY of a graph that does not exist succeed, with or
+    without SILENT (SPARQL 1.1 Update §3.2 only says such a request SHOULD return failure).  On a plain Graph exactly the
+    operations that name a graph fail.  CREATE, and LOAD of a source that cannot be read, fail whatever the dataset. -/
+def Statement_outcome_characterisation : Prop :=
+  ∀ (c : Cfg) (op : Op) (s : St),
+    evalOp c op s = none ↔ (c.single = true ∧ op.needsDataset = true) ∨ op.isFail = true
+
+theorem outcome_characterisation : Statement_outcome_characterisation := by
+  intro c op s
+  unfold evalOp
+  cases h1 : c.single <;> cases h2 : op.needsDataset <;> cases h3 : op.isFail <;> simp
+
+/-- What a failing operation in the middle of a request leaves behind ("a result of failure from any operation MUST abort
+    the sequence of operations, causing the subsequent operations to be ignored"): the operations before it are applied,
+    the failing one changes nothing, and those after it are not run — unless it is SILENT, in which case it is skipped
+    and the rest runs from the very state the operations before it left. -/
+def Statement_failure_leaves_prefix : Prop :=
+  ∀ (c : Cfg) (pre post : List Op) (op : Op) (s : St),
+    (runRequest c pre s).failed = false → evalOp c op (runRequest c pre s).st = none →
+    runRequest c (pre ++ op :: post) s =
+      if op.silent then post.foldl (Run.step c) (runRequest c pre s)
+      else { st := (runRequest c pre s).st, failed := true }
+
+theorem failure_leaves_prefix : Statement_failure_leaves_prefix := by
+  intro c pre post op s hf he
+  rw [request_in_order, List.foldl_cons]
+  generalize runRequest c pre s = r at hf he
+  obtain ⟨st, failed⟩ := r
+  simp only at hf he
+  subst hf
+  have hstep : Run.step c ⟨st, false⟩ op = ⟨st, !op.silent⟩ := by
+    simp [Run.step, he]
+  rw [hstep]
+  cases hs : op.silent with
+  | true => simp
+  | false => simp only [Bool.not_false, Bool.false_eq_true, if_false]; exact failed_aborts c post ⟨st, true⟩ rfl
+
+/-- CREATE and LOAD as coded.  `evalCreate` raises on every path: CREATE fails (and, SILENT, is skipped) whether the graph
+    exists or not — rdflib does not implement it; neither CREATE nor LOAD is in the property's operation list.  LOAD
+    (`SPARQL_LOAD_GRAPHS` on) of a source that cannot be read fails; LOAD of a readable document is INSERT DATA of its
+    triples into the target graph (`INTO GRAPH g`, else the real default graph), one fresh node per blank-node label of
+    the document and per LOAD. -/
+def Statement_create_load_spec : Prop :=
+  (∀ (c : Cfg) (sl : Bool) (g : Nat) (s : St), evalOp c (Op.create sl g) s = none ∧ (Op.create sl g).silent = sl) ∧
+  (∀ (c : Cfg) (single sl : Bool) (into : GName) (s : St),
+    evalOp c (Op.load single sl none into) s = none ∧ (Op.load single sl none into).silent = sl) ∧
+  (∀ (c : Cfg) (sl : Bool) (doc : Option (List TTpl)) (g : Nat) (s : St), c.single = true →
+    evalOp c (Op.load c.single sl doc (some g)) s = none ∧ (Op.load c.single sl doc (some g)).silent = sl) ∧
+  (∀ (ts : List TTpl) (into : GName), ∀ q ∈ loadQuads ts into, Spec.substG [] none q.2 = some into) ∧
+  (∀ (c : Cfg) (sl : Bool) (ts : List TTpl) (into : GName) (s : St), (c.single = false ∨ into = none) →
+    ∃ s', evalOp c (Op.load c.single sl (some ts) into) s = some s' ∧
+      ∀ x, x ∈ s'.quads ↔
+        x ∈ s.quads ∨ Spec.DatasetOf [] (alookup (mkMap (tplLabels (loadQuads ts into)) s.next)) none (loadQuads ts into) x)
+
+theorem create_load_spec : Statement_create_load_spec := by
+  refine ⟨?_, ?_, ?_, ?_, ?_⟩
+  · intro c sl g s
+    exact ⟨by simp [Op.create, evalOp, Op.isFail], rfl⟩
+  · intro c single sl into s
+    exact ⟨by simp [Op.load, evalOp, Op.isFail], rfl⟩
+  · intro c sl doc g s hc
+    cases doc with
+    | none => exact ⟨by simp [Op.load, evalOp, Op.isFail], rfl⟩
+    | some ts => exact ⟨by simp [Op.load, evalOp, Op.isFail, hc], by simp [Op.load, hc, Op.silent]⟩
+  · intro ts into q hq
+    simp only [loadQuads, List.mem_map] at hq
+    obtain ⟨t, _, rfl⟩ := hq
+    cases into <;> rfl
+  · intro c sl ts into s h
+    have hload : Op.load c.single sl (some ts) into = .insertData (loadQuads ts into) := by
+      rcases h with h | h
+      · simp [Op.load, h]
+      · subst h; simp [Op.load]
+    have hnd : (c.single && (Op.insertData (loadQuads ts into)).needsDataset) = false := by
+      rcases h with h | h
+      · simp [h]
+      · subst h
+        simp [Op.needsDataset, loadQuads, GTerm.isDflt]
+    refine ⟨evalInsertData (loadQuads ts into) s, ?_, fun x => insert_data_spec _ s x⟩
+    rw [hload]
+    simp only [evalOp, hnd, Op.isFail, Bool.or_false, Bool.false_eq_true, if_false]
+
+/-- non-vacuity: `INSERT DATA {a p b} ; CREATE GRAPH <g> ; INSERT DATA {b p a}` keeps the first insertion only;
+    with `CREATE SILENT` both are there -/
+example :
+    let i1 : Op := .insertData [((.const (.iri 1), .const (.iri 4), .const (.iri 2)), .dflt)]
+    let i2 : Op := .insertData [((.const (.iri 2), .const (.iri 4), .const (.iri 1)), .dflt)]
+    (runRequest ⟨.ds, true⟩ [i1, Op.create false 90, i2] ⟨[], [], 0⟩).st.quads = [(.iri 1, .iri 4, .iri 2, none)] ∧
+    (runRequest ⟨.ds, true⟩ [i1, Op.create false 90, i2] ⟨[], [], 0⟩).failed = true ∧
+    (runRequest ⟨.ds, true⟩ [i1, Op.create true 90, i2] ⟨[], [], 0⟩).st.quads =
+      [(.iri 1, .iri 4, .iri 2, none), (.iri 2, .iri 4, .iri 1, none)] := by decide
 
 end RV.C10
